@@ -26,9 +26,19 @@ def run(model, name, bound=None, overrides=None, kinds=None, no_inline=(), selfo
     fn = model.funcs[name] if name in model.funcs else model.find(name)
     ctx = ctx or SE.Ctx(model, overrides=overrides, kinds=kinds, no_inline=no_inline)
     fr = SE.Frame(ctx, fn, dict(bound or {}), selfobj=selfobj)
+    n0 = len(ctx.raises)
     res = fr.run()
     ctx.frame = fr
+    if model is not _cache.get('spec'):
+        # Python-level errors the evaluator models exactly (unbound name, missing attribute of a constructed object, **None, duplicate keyword):
+        # on a path a rule runs they mean "this call raises instead of returning", whatever else the rule was looking at
+        for r in ctx.raises[n0:]:
+            if len(r) > 3 and r[3] == 'implicit' and (r[0], r[2]) not in {(p[0], p[2]) for p in PYERRORS}:
+                PYERRORS.append((r[0], r[1], r[2], fn.qual))
     return res, ctx
+
+
+PYERRORS = []
 
 
 def spec(name, bound=None, overrides=None, kinds=None, repo=None):
